@@ -132,7 +132,9 @@ def gen_case(rng, size=1.0, force=None):
         read_groups.append(["rg_nosm", None])
     no_rg_header = ignore_read_groups and rng.random() < 0.4
     barcodes = [f"BC{i}" for i in range(rng.choice([2, 3, 5]))]
-    cutoff = rng.choice([60, 150, 400, 50000])
+    cutoff = rng.choice([60, 150, 400, 50000, 50000, 0])
+    # barcodes are normally per sample; now and then the samples share the barcode whitelist (finding F71)
+    shared_barcodes = linked and len(bam_samples) > 1 and not ignore_read_groups and rng.random() < 0.5
 
     alns = []
     rid = 0
@@ -168,7 +170,7 @@ def gen_case(rng, size=1.0, force=None):
                 base = {"name": qname, "rg": None if no_rg_header else rg_id, "qual": q, "sample": s}
                 tags = []
                 if linked and rng.random() < 0.6:
-                    tags.append(["BX", f"{s or 'nosm'}_{rng.choice(barcodes)}"])
+                    tags.append(["BX", rng.choice(barcodes) if shared_barcodes else f"{s or 'nosm'}_{rng.choice(barcodes)}"])
 
                 def mk(st, rl, alleles, flag, mapq=60, extra_tags=(), clip=True):
                     m = make_alignment(seq, vs, alleles, st, min(L, st + rl))
@@ -300,19 +302,90 @@ def gen_case(rng, size=1.0, force=None):
             for _ in range(rng.randrange(1, 4)):
                 regs.append(gen_region(rng, c, len(contigs[c]), variants[c]))
         opts["regions"] = regs
+    if ignore_read_groups and len(vcf_samples) > 1 and rng.random() < 0.25:
+        # every selected sample then works on ALL reads: the later sample overwrites the earlier one's decisions
+        opts["sample"] = sorted(rng.sample(vcf_samples, 2))
+    # read names occurring in two samples (different read groups): finding F71
+    collisions = 0
+    if not ignore_read_groups and len(read_groups) > 1 and len({sm for _, sm in read_groups}) > 1 and rng.random() < 0.2:
+        prim = [a for a in alns if a.get("chrom") in contigs and a.get("cigar") and not a["flag"] & (FLAG_SEC | FLAG_SUPP | FLAG_UNMAP | FLAG_PAIRED)
+                and a.get("mapq", 60) >= 20 and len(a["truth"]) >= 1]
+        for a in rng.sample(prim, min(len(prim), rng.randrange(1, 4))):
+            others = [(rid_, sm) for rid_, sm in read_groups if sm != a["sample"]]
+            if not others:
+                continue
+            rg2, s2 = rng.choice(others)
+            cvs = variants[a["chrom"]]
+            alle = [rng.randrange(2) for _ in cvs]
+            m = make_alignment(contigs[a["chrom"]], cvs, alle, max(0, a["start"] + rng.randrange(-30, 30)), min(len(contigs[a["chrom"]]), a["start"] + rng.randrange(80, 300)))
+            if m is None:
+                continue
+            alns.append({"name": a["name"], "rg": None if no_rg_header else rg2, "qual": 30, "sample": s2, "chrom": a["chrom"], "start": m[0], "cigar": m[1],
+                         "seq": m[2], "flag": 0, "mapq": 60, "truth": m[3], "tags": [list(t) for t in a["tags"] if t[0] == "BX" and rng.random() < 0.5]})
+            collisions += 1
+    # error exits of the sample selection and of the region normalisation
+    r = rng.random()
+    expect_error = None
+    if r < 0.02:
+        opts["sample"] = ["NOSUCH"] + ([vcf_samples[0]] if rng.random() < 0.5 else []); expect_error = "sampleNotInVcf"
+    elif r < 0.04 and ignore_read_groups and len(vcf_samples) > 1:
+        opts["sample"] = None; expect_error = "needSampleOption"
+    elif r < 0.06 and opts["regions"]:
+        opts["regions"] = opts["regions"] + ["chrNOSUCH:5-50"]; expect_error = "regionContig"
+    elif r < 0.08 and not ignore_read_groups:
+        for g in read_groups:                       # no read group belongs to a sample of the VCF
+            g[1] = "X_" + (g[1] or "")
+        expect_error = "noSharedSamples"
     opts.update(force.get("opts", {}))
     vcf_contigs = [c for c in contigs if c != "chrE" or rng.random() < 0.5]
-    if extra_contig and "chrE" not in vcf_contigs and opts["regions"] is None and rng.random() < 0.6:
+    if extra_contig and "chrE" not in vcf_contigs and rng.random() < 0.6 and (opts["regions"] is None or rng.random() < 0.5):
         # reads on a contig the VCF does not know: haplotag refuses unless --skip-missing-contigs, which drops the
         # contig's reads by design (outside the quantifier of C10; exercised as an observation)
         for k in range(2):
             m = make_alignment(contigs["chrE"], [], [], 20 + 60 * k, 150 + 60 * k)
             alns.append({"name": f"onE{k}", "chrom": "chrE", "start": m[0], "cigar": m[1], "seq": m[2], "flag": 0, "mapq": 60,
-                         "rg": some_rg, "qual": 30, "truth": [], "tags": [], "sample": None})
+                         "rg": some_rg, "qual": 30, "truth": [], "tags": [["HP", 1], ["PS", 4], ["PC", 7]] if k == 0 else [], "sample": None})
         opts["skip_missing_contigs"] = rng.random() < 0.7
+        if opts["regions"] is not None and rng.random() < 0.7:
+            opts["regions"] = opts["regions"] + [rng.choice(["chrE", "chrE:1-100", "chrE:50"])]
+    # records the VCF reader skips or that carry no phase: multi-ALT, no ALT, a second record at a used position, missing genotype
+    extras = {}
+    for name in contigs:
+        if name == "chrE" or rng.random() < 0.6:
+            continue
+        seq = contigs[name]
+        used_pos = {v["pos"] + d for v in variants[name] for d in range(-1, len(v["ref"]) + 1)}
+        ex = []
+        for _ in range(rng.randrange(1, 4)):
+            kind = rng.choice(["multi", "noalt", "dup", "missing", "unphased_het"])
+            gt_phased = "|".join(str(rng.randrange(2)) for _ in range(ploidy))
+            if kind == "dup" and variants[name]:
+                v = rng.choice(variants[name])
+                alt = rng.choice([b for b in "ACGT" if b not in (v["ref"][0], v["alt"][0])])
+                ex.append({"pos": v["pos"], "ref": v["ref"], "alts": [alt + v["ref"][1:]], "gt": gt_phased, "ps": 990 + len(ex), "after": True})
+                continue
+            free = [p for p in range(5, len(seq) - 5) if p not in used_pos]
+            if not free:
+                continue
+            pos = rng.choice(free)
+            used_pos.update((pos - 1, pos, pos + 1))
+            ref = seq[pos]
+            alts = [b for b in "ACGT" if b != ref]
+            if kind == "multi":
+                ex.append({"pos": pos, "ref": ref, "alts": alts[:2], "gt": "|".join(str(rng.randrange(3)) for _ in range(ploidy)), "ps": 980})
+            elif kind == "noalt":
+                ex.append({"pos": pos, "ref": ref, "alts": [], "gt": "/".join("0" for _ in range(ploidy)), "ps": None})
+            elif kind == "missing":
+                ex.append({"pos": pos, "ref": ref, "alts": alts[:1], "gt": "/".join("." for _ in range(ploidy)), "ps": None})
+            else:
+                ex.append({"pos": pos, "ref": ref, "alts": alts[:1], "gt": "/".join(["0"] * (ploidy - 1) + ["1"]), "ps": None})
+        if ex:
+            extras[name] = ex
     case = {"kind": "haplotag", "ploidy": ploidy, "contigs": contigs, "variants": variants, "vcf_samples": vcf_samples,
             "phasing": phasing, "encoding": encoding, "read_groups": None if no_rg_header else read_groups, "alns": alns, "opts": opts,
-            "vcf_contigs": vcf_contigs}
+            "vcf_contigs": vcf_contigs, "extras": extras, "collisions": collisions, "shared_barcodes": shared_barcodes}
+    if expect_error:
+        case["expect_error"] = expect_error
     # the exchange for the symmetry run: prefer a large phase set of a sample that is used
     cands = [(s, c, p, phasing[s][c]["ps"].count(p)) for s in vcf_samples for c in real
              for p in sorted(set(x for x in phasing[s][c]["ps"] if x is not None))]
@@ -386,6 +459,19 @@ def write_case_vcf(case, path, swap=None):
             calls = [call_string(case, s, chrom, i, swap) for s in case["vcf_samples"]]
             recs.append({"chrom": chrom, "pos": v["pos"], "ref": v["ref"], "alts": [v["alt"]], "calls": calls,
                          "format": ["GT", case["encoding"]]})
+        for e in (case.get("extras") or {}).get(chrom, []):
+            # extra records carry the same call for every sample; phase only in the PS encoding (HP needs an unphased GT)
+            if case["encoding"] == "PS":
+                call = {"GT": e["gt"], "PS": "." if e["ps"] is None else str(e["ps"])}
+            else:
+                call = {"GT": e["gt"].replace("|", "/"), "HP": "."}
+            recs.append({"chrom": chrom, "pos": e["pos"], "ref": e["ref"], "alts": e["alts"], "calls": [dict(call) for _ in case["vcf_samples"]],
+                         "format": ["GT", case["encoding"]], "after": bool(e.get("after"))})
+    # position order per contig; a second record of a position comes after the first (the reader keeps the first)
+    order = {c: k for k, c in enumerate(case["contigs"])}
+    recs = [r for _, r in sorted(enumerate(recs), key=lambda t: (order[t[1]["chrom"]], t[1]["pos"], 1 if t[1].get("after") else 0, t[0]))]
+    for r in recs:
+        r.pop("after", None)
     contigs = {c: case["contigs"][c] for c in case["vcf_contigs"]}
     sim.write_vcf(path, contigs, case["vcf_samples"], recs, fmt_defs={"PS": PS_FMT, "HP": HP_FMT})
     pysam.tabix_compress(path, path + ".gz", force=True)
